@@ -407,6 +407,11 @@ Definition unreachable (g : graph) : list key :=
   filter (fun x => forallb (fun p => negb (is_ctrl_pred g p x) && negb (is_data_pred_g g p x)) (all_keys g))
          (filter (fun k => negb (N.eqb k kSTART)) (all_keys g)).
 
+(* every channel has a control predecessor, or no predecessor at all (then initChannelManager skips
+   it up front): a node fed by data-only inputs without any control predecessor is excluded *)
+Definition covered (g : graph) : bool :=
+  forallb (fun x => existsb (fun p => is_ctrl_pred g p x) (all_keys g) || memb x (unreachable g)) (chan_keys g).
+
 Definition state0 : rstate :=
   {| rs_store := {| s_next := 0; s_open := []; s_log := [] |};
      rs_chans := fun _ => chan0; rs_pending := [kSTART]; rs_resolved := []; rs_log := log0 |}.
